@@ -331,3 +331,86 @@ func (c *Ctx) checkLiteralsPrintedVerbatim(r *Report, rule string) {
 		r.Undecided("%s: only %d Literal() calls found in package ast", rule, nLit)
 	}
 }
+
+// checkElseIfParsedAsIf: rule C03.R7.
+//
+// The printer folds `else { if ... }` into `else if ...` whenever the alternative is a lone if expression
+// (printElse). The parser has to read that text back as exactly that: in parseIfExpression, on the edge where
+// the token after `else` is `if`, the node put into the alternative is the result of parseIfExpression
+// itself. A wider parser (parseStatement, parseExpression) also takes what follows the chain's closing brace
+// (`... else if b {2} else {3} + 1`) into the alternative, and a second formatting pass prints another program.
+func (c *Ctx) checkElseIfParsedAsIf(r *Report, rule string) {
+	pif := c.Fn("parser", "Parser.parseIfExpression")
+	fn := c.SSAFn(pif)
+	peekIs := c.Fn("parser", "Parser.peekTokenIs")
+	ifTokC, _ := constInt64(c.Const("token", "IF"))
+	ifTok := ifTokC
+	n := 0
+	for _, b := range fn.Blocks {
+		ifi, ok := b.Instrs[len(b.Instrs)-1].(*ssa.If)
+		if !ok {
+			continue
+		}
+		call, ok := ifi.Cond.(*ssa.Call)
+		if !ok || !isCallTo(call, peekIs) || len(call.Common().Args) < 2 {
+			continue
+		}
+		if k, ok := constInt(call.Common().Args[1]); !ok || k != ifTok {
+			continue
+		}
+		arm := b.Succs[0]
+		// the parse calls of the arm (blocks it dominates)
+		var parsers []string
+		good := false
+		for _, ab := range fn.Blocks {
+			if !(ab == arm || (len(arm.Preds) == 1 && arm.Dominates(ab))) {
+				continue
+			}
+			for _, in := range ab.Instrs {
+				pc, ok := in.(*ssa.Call)
+				if !ok {
+					continue
+				}
+				callee := pc.Common().StaticCallee()
+				if callee == nil || callee.Pkg != fn.Pkg || !strings.HasPrefix(callee.Name(), "parse") {
+					continue
+				}
+				if isCallTo(pc, pif) {
+					parsers = append(parsers, callee.Name())
+					good = true
+					continue
+				}
+				// a helper of the arm counts for the parsers it calls
+				inner := 0
+				eachInstr(callee, func(hin ssa.Instruction) {
+					hc, ok := hin.(*ssa.Call)
+					if !ok {
+						return
+					}
+					if g := hc.Common().StaticCallee(); g != nil && g.Pkg == fn.Pkg && strings.HasPrefix(g.Name(), "parse") {
+						inner++
+						parsers = append(parsers, g.Name())
+						if isCallTo(hc, pif) {
+							good = true
+						}
+					}
+				})
+				if inner == 0 {
+					parsers = append(parsers, callee.Name())
+				}
+			}
+		}
+		n++
+		onlyIf := good
+		for _, p := range parsers {
+			if p != fn.Name() {
+				onlyIf = false
+			}
+		}
+		r.Check(onlyIf, rule, ssaFuncName(fn), "the alternative of `else if` is parsed by parseIfExpression", c.Pos(ifi.Pos()),
+			"after `else`, an `if` is read by "+strings.Join(parsers, ", ")+" instead of parseIfExpression alone: a wider parser takes what follows the chain's closing brace into the alternative, so the text the printer folds into `else if` (an alternative that is a lone if expression) reads back as another program and formatting is not idempotent")
+	}
+	if n == 0 {
+		r.Undecided("%s: no `peek is IF` test found in parseIfExpression", rule)
+	}
+}
